@@ -212,11 +212,13 @@ pub struct CliOpts {
     pub stdin_pipe: bool,
     // stdout goes to a pipe instead of a file.
     pub stdout_pipe: bool,
+    // Repeat a run that hit the time limit once with six times the limit.
+    pub patient: bool,
 }
 
 impl Default for CliOpts {
     fn default() -> CliOpts {
-        CliOpts{timeout: Duration::from_secs(5), arg: None, cwd: None, env: vec![], stdin_closed: false, stdin_pipe: false, stdout_pipe: false}
+        CliOpts{timeout: Duration::from_secs(5), arg: None, cwd: None, env: vec![], stdin_closed: false, stdin_pipe: false, stdout_pipe: false, patient: true}
     }
 }
 
@@ -228,8 +230,20 @@ pub fn run_cli_opts(src: &[u8], opts: &CliOpts) -> Obs {
     run_cli_at(&dir, opts)
 }
 
-// Runs the binary on an already written script.
+// Runs the binary on an already written script. A run that exceeds the time
+// limit is repeated once with six times the limit before it is called a hang
+// (the machine may simply be busy).
 pub fn run_cli_at(dir: &Path, opts: &CliOpts) -> Obs {
+    let o = run_cli_once(dir, opts);
+    if o.status != Status::Timeout || !opts.patient {
+        return o;
+    }
+    let mut patient = opts.clone();
+    patient.timeout = opts.timeout * 6;
+    run_cli_once(dir, &patient)
+}
+
+fn run_cli_once(dir: &Path, opts: &CliOpts) -> Obs {
     CLI_RUNS.fetch_add(1, Ordering::Relaxed);
     let out_path = dir.join("stdout.bin");
     let err_path = dir.join("stderr.bin");
